@@ -177,8 +177,8 @@ func (c *Ctx) shortLockExceptions() map[string]lockException {
 			if kind != "carrier-closesend" {
 				return false
 			}
-			if c.W.Short(fn) == "(*ReverseTunnelServer).Stop" {
-				return true
+			if stop := c.W.Func("(*ReverseTunnelServer).Stop"); stop != nil && c.W.ownedBy(fn, stop) {
+				return true // Stop itself, or a helper used only by it
 			}
 			return fn.Signature.Recv() != nil && c.W.isCarrierType(fn.Signature.Recv().Type())
 		},
